@@ -451,6 +451,30 @@ func buildSurfaces(c *mc.Ctx) []surface {
 		})
 		return
 	}, mayPanic: func(d []byte) bool { return len(d) != 64 }})
+	// documented: a context longer than ContextMaxSize (255) is an invalid option (panics in the verify entry points, an error
+	// from Sign); every context of 0..255 bytes is legal in ctx and ph mode, through every twin, and never panics
+	add(surface{name: "ed25519.*WithOptions(context bytes)", size: -1, call: func(used bool, d []byte) (o outcome) {
+		guard(&o, func() {
+			cx := string(d)
+			digest := make([]byte, 64)
+			ed25519.VerifyWithOptions(pk, msg, sig, &ed25519.Options{Context: cx})
+			ed25519.VerifyWithOptions(pk, digest, sig, &ed25519.Options{Hash: crypto.SHA512, Context: cx})
+			ed25519.VerifyExpandedWithOptions(epk, msg, sig, &ed25519.Options{Context: cx, Verify: ed25519.VerifyOptionsZIP_215})
+			v := ed25519.NewBatchVerifier()
+			v.AddWithOptions(pk, msg, sig, &ed25519.Options{Context: cx})
+			v.AddExpandedWithOptions(epk, digest, sig, &ed25519.Options{Hash: crypto.SHA512, Context: cx})
+			v.Verify(bytes.NewReader(make([]byte, 64)))
+			sg, err := sk.Sign(nil, msg, &ed25519.Options{Context: cx})
+			if (err == nil) != (len(d) <= 255) {
+				panic(fmt.Sprintf("Sign with a %d-byte context: err=%v", len(d), err))
+			}
+			o.accepted = err == nil && len(d) > 0 && ed25519.VerifyWithOptions(pk, msg, sg, &ed25519.Options{Context: cx})
+			if err == nil && len(d) > 0 && !o.accepted {
+				panic(fmt.Sprintf("signature made with a %d-byte context does not verify under it", len(d)))
+			}
+		})
+		return
+	}, mayPanic: func(d []byte) bool { return len(d) > 255 }})
 	add(surface{name: "BatchVerifier.Add(signature bytes)", size: 64, valid: sig, call: func(used bool, d []byte) (o outcome) {
 		guard(&o, func() {
 			v := ed25519.NewBatchVerifier()
